@@ -33,14 +33,20 @@ Proof. intros rho x H. simpl. now rewrite H. Qed.
 Print Assumptions C05_unbound_variable_raises.
 
 (* division by zero yields NaN (here: the non-finite value), not an exception and not a number *)
-Theorem C05_division_by_zero : forall rho a b x y, eval rho a = EOk x -> eval rho b = EOk y -> qv y = Some 0%Q -> eval rho (Bin KDiv a b) = EOk NNonFinite.
-Proof. intros rho a b x y Ha Hb Hy. simpl. rewrite Ha, Hb. simpl. unfold ndiv. rewrite Hy. reflexivity. Qed.
+Theorem C05_division_by_zero : forall rho a b x y, eval rho a = EOk x -> eval rho b = EOk y -> x <> NNonFinite -> qv y = Some 0%Q -> eval rho (Bin KDiv a b) = EOk NNonFinite.
+Proof.
+  intros rho a b x y Ha Hb Hx Hy. cbn [eval]. rewrite Ha, Hb. destruct x; [| |contradiction]; (destruct y; [| |discriminate Hy]); cbn [ebind operate]; unfold ndiv; rewrite Hy; reflexivity.
+Qed.
 Print Assumptions C05_division_by_zero.
 
 (* an equation evaluates to its common value, or raises when the sides differ *)
-Theorem C05_equation : forall rho l r a b, eval rho l = EOk a -> eval rho r = EOk b ->
+Theorem C05_equation : forall rho l r a b, eval rho l = EOk a -> eval rho r = EOk b -> a <> NNonFinite -> b <> NNonFinite ->
   eval rho (Bin KEq l r) = if num_eqb a b then EOk a else EValueError.
-Proof. intros rho l r a b Hl Hr. simpl. rewrite Hl, Hr. reflexivity. Qed.
+Proof. intros rho l r a b Hl Hr Ha Hb. cbn [eval]. rewrite Hl, Hr. destruct a; [| |contradiction]; (destruct b; [| |contradiction]); reflexivity. Qed.
+(* an operation on a non-finite operand (nan / inf) is outside the model: the explicit outcome ENonFinite, never a number *)
+Theorem C05_nonfinite_operand_not_modelled : forall rho k l r, eval rho l = EOk NNonFinite -> eval rho (Bin k l r) = ENonFinite.
+Proof. intros rho k l r H. cbn [eval]. rewrite H. reflexivity. Qed.
+Print Assumptions C05_nonfinite_operand_not_modelled.
 Print Assumptions C05_equation.
 
 (* 2^64 and 10^20 are exact (the int64 wrap-around of numpy is gone), (-3)^40 likewise *)
